@@ -259,4 +259,19 @@ CHECKS = {
              "shards": {"quick": 6, "thorough": 16}, "timeout": {"quick": 600, "thorough": 7200}},
         ],
     },
+    "C15": {
+        "rule": ("an abstract configuration tree generated from the grammar on the UnmarshalCaddyfile doc comments and printed twice, as Caddyfile text and as the JSON it is documented to "
+                 "mean: 1-2 global layer4 blocks with 1-2 servers each (1-2 listen addresses in several forms), matching_timeout, 0-3 named matcher sets of 1-3 matchers (all 19 matchers "
+                 "with their options; inline and block forms; `not` nested up to 2), defined before or after the routes that name them and reused, routes with 1-3 handlers (all 9 handlers "
+                 "with their options; subroute and tee nested up to depth 2), and the listener-wrapper form inside `servers { listener_wrappers { layer4 {...} } }`. Oracle: adapter output "
+                 "== expected JSON (as JSON values), adapting twice is byte-identical, the JSON provisions (tls app loaded, files not needed), JSON -> App/ListenerWrapper -> JSON "
+                 "reproduces it. Non-trivial = nesting >= 2 (subroute/tee/not) and a named set used twice; distinct = distinct Caddyfile text."),
+        "assumptions": ["options that need files (key files, CA pools, client certificates) and the `private_ranges` shorthand are not generated",
+                        "the expected JSON is written from the documentation of each option, not from the adapter's code"],
+        "min_classes": {"quick": {"C15/listener-wrapper": 300, "C15/several-global-blocks": 200, "C15/named-set-reused": 200, "C15/uses/openvpn": 50, "C15/uses/tee": 100}},
+        "runs": [
+            {"name": "adapt", "pkg": "./c15", "run": ".", "rapid_checks": {"quick": 750, "thorough": 40000},
+             "shards": {"quick": 1, "thorough": 16}, "timeout": {"quick": 600, "thorough": 7200}},
+        ],
+    },
 }
